@@ -65,15 +65,15 @@ Definition ref_scale (s : ost T) : sres (ost T) unit :=
     end
   else SOk s tt.
 
-(* run-length append of the RDP / PRV accountants; the GDP accountant keeps one run or raises *)
+(* run-length append of the RDP / PRV accountants; the GDP accountant keeps one run or raises -- and a refusal leaves the ledger as it was *)
 Definition ref_acc (s : ost T) (sigma q : T) : sres (ost T) unit :=
   match o_acc s with
   | AccGDP =>
     match rev (o_hist s) with
     | [] => SOk (upd_hist s [(sigma, q, 1%Z)]) tt
     | (s0, q0, n) :: r =>
-      if negb (neqb s0 sigma) || negb (neqb q0 q) then SErr (upd_hist s (rev r)) ValueError
-      else SOk (upd_hist (upd_hist s (rev r)) [(s0, q0, (n + 1)%Z)]) tt
+      if negb (neqb s0 sigma) || negb (neqb q0 q) then SErr s ValueError
+      else SOk (upd_hist s [(s0, q0, (n + 1)%Z)]) tt
     end
   | _ =>
     match rev (o_hist s) with
